@@ -232,7 +232,7 @@ func firstLine(s string) string {
 func init() {
 	explore.Register(&explore.CheckDef{
 		ID: "C03", Level: "exploration",
-		Rule: "full cross product, each case on a fresh world: write list {[A],[A,B],none (creator default),[],[*]} x controller {ipfs, simple and orbitdb through a manifest, simple through the store constructor} x route {local write by the non-writer, manual sync, topic message, direct-channel exchange, ancestor of an authorised colluder's head} x forging mode {honest non-writer, writer's id copied into the attacker's identity block, writer's whole identity block with the attacker's key and signature, writer's block and key with the attacker's signature, writer's id with identity signatures recomputed by the attacker} x position {alone, after, before an honest head}. Oracle: the local write fails and changes nothing; after quiescence the forged entry is in no victim log or view and the honest entry is. Wildcard lists and controllers with which no database can be built are recorded, not judged. Non-trivial = cases with a forged author field (every mode but the honest non-writer).",
+		Rule:   "full cross product, each case on a fresh world: write list {[A],[A,B],none (creator default),[],[*]} x controller {ipfs, simple and orbitdb through a manifest, simple through the store constructor} x route {local write by the non-writer, manual sync, topic message, direct-channel exchange, ancestor of an authorised colluder's head} x forging mode {honest non-writer, writer's id copied into the attacker's identity block, writer's whole identity block with the attacker's key and signature, writer's block and key with the attacker's signature, writer's id with identity signatures recomputed by the attacker} x position {alone, after, before an honest head}. Oracle: the local write fails and changes nothing; after quiescence the forged entry is in no victim log or view and the honest entry is. Wildcard lists and controllers with which no database can be built are recorded, not judged. Non-trivial = cases with a forged author field (every mode but the honest non-writer).",
 		Units:  func(tier string) []explore.Unit { return explore.ChunkUnits("c03", 16) },
 		Budget: func(tier string) float64 { return 300 },
 		RunUnit: func(c *explore.Ctx) {
